@@ -619,7 +619,19 @@ pub fn marshal_rtcp_packets(packets: &[RtcpPacket]) -> RtpResult<Vec<u8>> {
                 write_rtcp_packet(&mut out, RTCP_PSFB_APP, RTCP_PSFB, build_remb_body(remb)?)
             }
             RtcpPacket::TransportWideCc(twcc) => {
-                write_rtcp_packet(&mut out, RTCP_RTPFB_TWCC, RTCP_RTPFB, build_twcc_body(twcc))
+                // Chunks + deltas are not always a multiple of four bytes: pad the RFC 3550
+                // way (P bit, last octet = pad count) so the receiver can strip the padding.
+                let start = out.len();
+                let mut body = build_twcc_body(twcc);
+                let pad = (4 - body.len() % 4) % 4;
+                if pad != 0 {
+                    body.resize(body.len() + pad - 1, 0);
+                    body.push(pad as u8);
+                }
+                write_rtcp_packet(&mut out, RTCP_RTPFB_TWCC, RTCP_RTPFB, body);
+                if pad != 0 {
+                    out[start] |= 0x20;
+                }
             }
         }
     }
